@@ -406,3 +406,6 @@ impl Metadata {
 #[cfg(scylla_verif)]
 #[allow(missing_docs)]
 pub use merge_channel::verif_hooks as verif_merge_channel;
+#[cfg(scylla_verif)]
+#[allow(missing_docs)]
+pub use update::verif_hooks as verif_metadata_update;
